@@ -555,7 +555,7 @@ for _k, _v in _LT.items():
     if _k in PROPERTIES:
         PROPERTIES[_k]["level_text"] = _v
 PROPERTIES["C19"] = {"not_applicable": "the srp-fast-math configuration is rug -> GMP (C code behind FFI): Kani cannot execute it symbolically, and gmp-mpfr-sys cannot even be built in this sandbox (no m4); comparing the two cfg arms against each other's contract would say nothing about GMP itself"}
-H("C01", "client", "c01_client_s_to_k", timeout=3600, oracle_features=["cap192", "q16", "b16"], encodes=["SrpClientChallenge::new", "calculate_client_S", "calculate_interleaved", "SKey::as_equal_slice"],
+H("C01", "client", "c01_client_s_to_k", timeout=3600, oracle_features=["cap192", "q16", "b16"], file="s2k", needs=["normalized_string"], encodes=["SrpClientChallenge::new", "calculate_client_S", "calculate_interleaved", "SKey::as_equal_slice"],
   inputs="U, P (<= 4 bytes), announced g and N' != 0, valid B, salt: any; a = RNG draw; x, u, A, M1 uninterpreted", asserts="client K == SHA_Interleave(pad32((B - 3*g^x)^(a + u*x) mod N')) for every non-zero S incl. high/low zero bytes",
   bounds="real S computation and real interleave in one harness", assumes=[HASH_ASSUME, BIG_ASSUME, STUB_ASSUME])
 H("C01", "srp_internal", "c01_server_s_to_k", timeout=3600, oracle_features=["cap128", "q16", "b8"], encodes=["calculate_session_key", "calculate_S", "calculate_interleaved"],
